@@ -19,7 +19,7 @@ use futures_intrusive::channel::{
     ChannelSendError, GenericChannel, GenericOneshotBroadcastChannel, GenericOneshotChannel, GenericStateBroadcastChannel,
     StateId,
 };
-use futures_intrusive::sync::{GenericManualResetEvent, GenericMutex, GenericSemaphore};
+use futures_intrusive::sync::{GenericManualResetEvent, GenericMutex, GenericSemaphore, GenericSharedSemaphore};
 use serde_json::{json, Value};
 use std::collections::HashMap;
 use std::future::Future;
@@ -250,12 +250,14 @@ fn prog_mutex(consts: &Value) {
     }
 }
 
-fn prog_semaphore(consts: &Value) {
+macro_rules! prog_semaphore_impl {
+    ($name:ident, $ty:ty) => {
+        fn $name(consts: &Value) {
     let k = consts["K"].as_u64().unwrap_or(3) as usize;
     let fair = consts["Fair"].as_bool().unwrap_or(false);
     let init = consts["Init0"].as_u64().unwrap_or(2) as usize;
     let rounds = consts["Rounds"].as_u64().unwrap_or(2);
-    let s: &'static GenericSemaphore<SLock> = Box::leak(Box::new(GenericSemaphore::new(fair, init)));
+    let s: &'static $ty = Box::leak(Box::new(<$ty>::new(fair, init)));
     let mut hs = Vec::new();
     for t in 1..=k {
         hs.push(shuttle::thread::spawn(move || {
@@ -305,6 +307,10 @@ fn prog_semaphore(consts: &Value) {
         h.join().unwrap();
     }
 }
+    };
+}
+prog_semaphore_impl!(prog_semaphore, GenericSemaphore<SLock>);
+prog_semaphore_impl!(prog_semaphore_shared, GenericSharedSemaphore<SLock>);
 
 fn prog_event(consts: &Value) {
     let k = consts["K"].as_u64().unwrap_or(3) as usize;
@@ -602,6 +608,7 @@ fn main() {
         let p2 = prim.clone();
         let body = move || match (p2.as_str(), c2["Cap"].as_u64()) {
             ("mutex", _) => prog_mutex(&c2),
+            ("semaphore", _) if c2["SharedFlavour"].as_bool() == Some(true) => prog_semaphore_shared(&c2),
             ("semaphore", _) => prog_semaphore(&c2),
             ("event", _) => prog_event(&c2),
             ("mpmc", Some(0)) => prog_mpmc0(&c2),
